@@ -97,18 +97,29 @@ func (muxer *Muxer) process(vp, ap Packetizer) {
 			continue
 		}
 
-		frame := f.(*codec.Frame)
+		muxer.mux(f.(*codec.Frame), vp, ap)
+	}
+}
 
-		switch frame.MediaType {
-		case codec.MediaTypeVideo:
-			if err := vp.Packetize(frame); err != nil {
-				muxer.logger.Errorf("tsmuxer: muxVideoTag error - %s", err.Error())
-			}
-		case codec.MediaTypeAudio:
-			if err := ap.Packetize(frame); err != nil {
-				muxer.logger.Errorf("tsmuxer: muxAudioTag error - %s", err.Error())
-			}
-		default:
+// mux converts one frame. A panic raised while converting it (malformed
+// input) is logged and the frame dropped; the conversion goroutine keeps
+// serving the frames that follow.
+func (muxer *Muxer) mux(frame *codec.Frame, vp, ap Packetizer) {
+	defer func() {
+		if r := recover(); r != nil {
+			muxer.logger.Errorf("tsmuxer: frame dropped, panic；r = %v \n %s", r, debug.Stack())
 		}
+	}()
+
+	switch frame.MediaType {
+	case codec.MediaTypeVideo:
+		if err := vp.Packetize(frame); err != nil {
+			muxer.logger.Errorf("tsmuxer: muxVideoTag error - %s", err.Error())
+		}
+	case codec.MediaTypeAudio:
+		if err := ap.Packetize(frame); err != nil {
+			muxer.logger.Errorf("tsmuxer: muxAudioTag error - %s", err.Error())
+		}
+	default:
 	}
 }
